@@ -56,6 +56,7 @@ enum Expr {
     Sel(usize, usize), // selector node, index of the key in its trigger list
     New(usize),        // instantiate template node k here (a memo / an effect created at run time)
     Cleanup(usize),    // Owner::on_cleanup(move || { signal_j.get(); }): value 0, no event
+    KeepOwner,         // the body hands a clone of Owner::current() to the outside (kept until the case ends)
 }
 
 fn parse_expr(s: &Sexp) -> Expr {
@@ -72,6 +73,7 @@ fn parse_expr(s: &Sexp) -> Expr {
         8 => Expr::Sel(s.at(1).num() as usize, s.at(2).num() as usize),
         9 => Expr::New(s.at(1).num() as usize),
         10 => Expr::Cleanup(s.at(1).num() as usize),
+        11 => Expr::KeepOwner,
         _ => Expr::Const(0),
     }
 }
@@ -211,6 +213,8 @@ thread_local! {
     // Arc handles of memos created at run time: "the user keeps them somewhere" (an ArcMemo that
     // is dropped at the end of the body that created it is a dead source)
     static KEEP: RefCell<Vec<Handle>> = RefCell::new(vec![]);
+    // owner handles that bodies handed out with (11)
+    static KEEPOWN: RefCell<Vec<Owner>> = RefCell::new(vec![]);
 }
 /// what an effect body returns: its value, and the handles of the RenderEffects it created (a
 /// RenderEffect lives in its handle; the previous value is handed to the next run and dropped
@@ -611,6 +615,13 @@ fn eval(e: &Expr, hs: &mut Vec<Handle>) -> i64 {
         }
         Expr::New(k) => {
             instantiate(*k, hs);
+            0
+        }
+        Expr::KeepOwner => {
+            // what one does to pause / resume an effect later: `let handle = Owner::current()`
+            if let Some(o) = Owner::current() {
+                KEEPOWN.with(|k| k.borrow_mut().push(o));
+            }
             0
         }
         Expr::Cleanup(j) => {
@@ -1021,6 +1032,7 @@ fn run_case(c: &Sexp, mask: u8) -> Sexp {
             .collect();
     });
     KEEP.with(|k| k.borrow_mut().clear());
+    KEEPOWN.with(|k| k.borrow_mut().clear());
     NESTED.with(|n| n.borrow_mut().clear());
     STREAMS.with(|x| x.borrow_mut().clear());
     let prog = c.at(0).list();
@@ -1383,6 +1395,8 @@ fn run_case(c: &Sexp, mask: u8) -> Sexp {
     drop(hs);
     STREAMS.with(|x| x.borrow_mut().clear());
     KEEP.with(|k| k.borrow_mut().clear());
+    let kept = KEEPOWN.with(|k| std::mem::take(&mut *k.borrow_mut()));
+    drop(kept);
     root.cleanup();
     drop(root);
     exec_reset();
